@@ -164,7 +164,7 @@ def expected_context(pos, mod, scs):
     return {best, best.parent}, 'header'
 
 
-def check_text(tid, text, others, modname='main'):
+def check_text(tid, text, others, modname='main', relpath='main.py'):
     jedi = boot.boot()
     env = boot.environment()
     base = os.path.join(boot.scratch_root(), 'c18', '%d_%s' % (os.getpid(), abs(hash(tid)) % 10 ** 8))
@@ -185,10 +185,10 @@ def check_text(tid, text, others, modname='main'):
         return (modname if s.node is None else s.name, s.kind, None if s.node is None else None)
     try:
         files = dict(others)
-        files['main.py'] = text
+        files[relpath] = text
         execute.write_tree(base, files)
         project = jedi.Project(base)
-        path = os.path.join(base, 'main.py')
+        path = os.path.join(base, relpath)
         script = jedi.Script(text, path=path, environment=env, project=project)
         mod, scs = scopes_of(text)
         for (l, c, s) in code_tokens(text):
@@ -261,7 +261,8 @@ def check_text(tid, text, others, modname='main'):
                         chain.append((p.name, p.type))   # lists named scopes only
                     p = p.parent()
                     guard += 1
-                want = [(modname if s.node is None else s.name, s.kind) for s in enclosing.chain()]
+                want = [(modname.split('.')[-1] if s.node is None else s.name, s.kind)
+                        for s in enclosing.chain()]
                 if chain != want:
                     fail('parent-chain-differs@%s' % n.type, inp,
                          {'name': n.name, 'got': chain, 'expected': want})
@@ -273,7 +274,23 @@ def check_text(tid, text, others, modname='main'):
         shutil.rmtree(base, ignore_errors=True)
 
 
+# where the analysed file lives below the project root -> the dotted path Python would import it
+# by (the root is on sys.path; folders without __init__.py are namespace packages)
+LOCATIONS = [
+    ('main.py', 'main', {}),
+    ('tools/gen/emit.py', 'tools.gen.emit', {}),
+    ('pkg/mod.py', 'pkg.mod', {'pkg/__init__.py': ''}),
+    ('pkg/sub/leaf.py', 'pkg.sub.leaf', {'pkg/__init__.py': '', 'pkg/sub/__init__.py': ''}),
+    ('pkg/__init__.py', 'pkg', {}),
+    ('ns/pkg2/mod.py', 'ns.pkg2.mod', {'ns/pkg2/__init__.py': ''}),
+]
+
+
 def _work(task):
+    if task['kind'] == 'located':
+        rel, modname, others = LOCATIONS[task['loc']]
+        return check_text('loc:%s:%s' % (rel, '>'.join(task['seq'])), render_shape(task['seq']),
+                          others, modname=modname, relpath=rel)
     if task['kind'] == 'shape':
         return check_text('shape:' + '>'.join(task['seq']), render_shape(task['seq']), {})
     if task['kind'] == 'pf':
@@ -293,6 +310,9 @@ def _work(task):
 def _levels(tier):
     d = 3 if tier == 'quick' else 4
     lv = [('nesting shapes depth<=%d' % d, [dict(kind='shape', seq=list(s)) for s in shapes(d)])]
+    lv.append(('file locations below the project root x shapes depth<=%d' % (1 if tier == 'quick' else 2),
+               [dict(kind='located', loc=k, seq=list(s)) for k in range(len(LOCATIONS))
+                for s in shapes(1 if tier == 'quick' else 2)]))
     if tier == 'quick':
         lv.append(('PF depth1 x {inst}', [dict(kind='pf', src='inst', chain=[c])
                                           for c in pf.CARRIER_NAMES]))
